@@ -396,6 +396,7 @@ func handshake(c *vh.Ctx, m *vh.Model) func() {
 		probe("random", ack, r.Bytes([]int{0, 1, 2, 209, 210, 211, 306, 307, 308, 600}[r.Intn(10)]))
 	}
 	protoHandshakeProbes(c, m, r)
+	baseProtocolProbes(c, m, r)
 	// collected at the very end of the run: the time-out probes
 	return func() {
 		for _, t := range probes {
@@ -492,5 +493,70 @@ func protoHandshakeProbes(c *vh.Ctx, m *vh.Model, r *vh.RNG) {
 		}
 		c.Correspond("readProtocolHandshake~read_protocol_handshake", fmt.Sprintf("%s code=%d size=%d", x.name, x.code, size), obs,
 			m.Ask(fmt.Sprintf("phs %d %d %s", x.code, size, vh.Hex(x.payload))))
+	}
+}
+
+// Base-protocol messages through the real (*Peer).handle and readProtocolHandshake, in process:
+// the disconnect reason taken from a discMsg (any uint64, any payload shape) and its String/Error
+// (what Server.runPeer evaluates) against Net/Handshake.v disc_reason; other base codes for panics.
+// (Full peer runs — run / readLoop / pingLoop — are in the child process.)
+func baseProtocolProbes(c *vh.Ctx, m *vh.Model, r *vh.RNG) {
+	enc := func(v interface{}) []byte { b, _ := rlp.EncodeToBytes(v); return b }
+	var payloads [][]byte
+	reasons := []uint64{255, 256, 1 << 31, 1 << 32, 1<<63 - 1, 1 << 63, 1<<64 - 1}
+	for i := uint64(0); i <= 20; i++ {
+		reasons = append(reasons, i)
+	}
+	for _, v := range reasons {
+		payloads = append(payloads, enc([]uint64{v}), enc([]uint64{v, 3}))
+		// DiscReason.String / Error directly
+		p, pv := vh.CatchPanic(func() { _ = p2p.DiscReason(v).String() + p2p.DiscReason(v).Error() })
+		c.Eval("base/DiscReason.String", fmt.Sprintf("discstr%d", v))
+		if p {
+			c.Violate("disc-reason-string-panic", fmt.Sprintf("DiscReason(%d).String() panics: %v — Server.runPeer calls err.Error() on the reason a remote peer sent", v, pv), H{"kind": "disc-reason", "reason": v})
+		}
+	}
+	payloads = append(payloads, nil, []byte{0xc0}, []byte{0x11}, []byte{0x80}, []byte{0x83, 1, 2, 3}, []byte{0xc1, 0xc0}, []byte{0xc1, 0x80}, []byte{0xc1, 0x00},
+		[]byte{0xc2, 0x81, 0x11}, []byte{0xc3, 0x82, 0x00, 0x11}, []byte{0xca, 0x89, 1, 2, 3, 4, 5, 6, 7, 8, 9}, []byte{0xc5, 0x11}, []byte{0xc1, 0x11, 0xff, 0xff}, []byte{0xf8, 0x01, 0x11})
+	for i := 0; i < c.Scale(20, 300); i++ {
+		payloads = append(payloads, r.Bytes(r.Intn(12)))
+	}
+	for _, pl := range payloads {
+		var cls, text string
+		var rsn uint64
+		p, pv := vh.CatchPanic(func() { cls, rsn, text = p2p.VerifPeerHandle(p2p.VerifDiscMsg, uint32(len(pl)), pl) })
+		c.Eval("base/disc-handle", vh.Hex(pl))
+		if p {
+			c.Violate("disc-reason-string-panic", fmt.Sprintf("Peer.handle / DiscReason.Error panics on a disconnect message with payload %s: %v (readLoop has no recover)", vh.Hex(pl), pv),
+				H{"kind": "base-msg", "code": p2p.VerifDiscMsg, "payload": vh.Hex(pl)})
+			continue
+		}
+		obs := cls
+		if cls == "disc" {
+			obs = fmt.Sprintf("0x%x named", rsn)
+			if strings.HasPrefix(text, "unknown disconnect reason") {
+				obs = fmt.Sprintf("0x%x unknown", rsn)
+			}
+		}
+		c.Correspond("Peer.handle(discMsg)+DiscReason.Error~disc_reason", vh.Hex(pl), obs, m.Ask("discreason "+vh.Hex(pl)))
+		// the same message during the protocol handshake
+		var hcls string
+		p, pv = vh.CatchPanic(func() { hcls, _ = p2p.VerifReadProtocolHandshake(p2p.VerifDiscMsg, uint32(len(pl)), pl) })
+		if p {
+			c.Violate("disc-reason-string-panic", fmt.Sprintf("readProtocolHandshake panics on a disconnect message with payload %s: %v", vh.Hex(pl), pv),
+				H{"kind": "protohandshake", "code": p2p.VerifDiscMsg, "size": len(pl), "payload": vh.Hex(pl)})
+		} else if hcls != "disc" && !(hcls == "zeroid" && cls == "disc" && rsn == 7) { // reason 7 is DiscInvalidIdentity itself
+			c.Violate("protohandshake-disc-not-returned/"+vh.Hex(pl), "a disconnect during the protocol handshake was not returned as a disconnect reason: "+hcls, H{"kind": "protohandshake", "payload": vh.Hex(pl)})
+		}
+	}
+	// every other base code and the sub-protocol range, with a few payloads
+	for _, code := range []uint64{p2p.VerifHandshakeMsg, p2p.VerifPingMsg, p2p.VerifPongMsg, 4, 5, 15, 16, 32, 33, 1 << 31, 1 << 63, 1<<64 - 1} {
+		for _, pl := range [][]byte{nil, {0xc0}, {0x11}, r.Bytes(40)} {
+			p, pv := vh.CatchPanic(func() { p2p.VerifPeerHandle(code, uint32(len(pl)), pl) })
+			c.Eval("base/other-codes", "")
+			if p {
+				c.Violate(fmt.Sprintf("base-msg-panic/code=%d/%s", code, vh.Hex(pl)), fmt.Sprintf("Peer.handle panics: %v", pv), H{"kind": "base-msg", "code": code, "payload": vh.Hex(pl)})
+			}
+		}
 	}
 }
